@@ -11,6 +11,7 @@ leg T : seeded random runs far beyond the model bounds (long streams, max_length
         implementation-shaped trace spec (-> DIVERGENCE only).
 """
 import json
+import math
 import os
 import random
 import subprocess
@@ -111,7 +112,7 @@ def mode_of(p):
 
 
 def run_trace(core, util, p, stream, mode="gen", ftype="tuple", vkind="callable", tokenizer=None,
-              consume=None):
+              consume=None, real=None):
     """Run the real StreamTokenizer on `stream` (list of booleans) and return the trace record.
     consume: for generator mode, stop consuming after that many tokens (abandoned generator)."""
     ev = []
@@ -172,8 +173,9 @@ def run_trace(core, util, p, stream, mode="gen", ftype="tuple", vkind="callable"
     tk = tokenizer
     try:
         if tk is None:
-            tk = core.StreamTokenizer(val, p["min"], p["max"], p["sil"], init_min=p["imin"],
-                                      init_max_silence=p["isil"], mode=mode_of(p))
+            q = dict(p, **(real or {}))     # real: the (possibly non-integral) numbers actually passed to the constructor
+            tk = core.StreamTokenizer(val, q["min"], q["max"], q["sil"], init_min=q["imin"],
+                                      init_max_silence=q["isil"], mode=mode_of(p))
         else:
             # reuse: point the existing object at this run's validator
             tk._is_valid = val if callable(val) else val.is_valid
@@ -360,6 +362,33 @@ def rand_stream(rng, p, n, prop):
         gap = rng.choice([p["sil"] - 1, p["sil"], p["sil"] + 1, p["sil"] + 2, p["isil"], p["isil"] + 1, 1, rng.randint(0, 2 * p["sil"] + 2)])
         s.extend([False] * max(0, gap))
     return s[:n]
+
+
+def frac_traces(tier, rng, core, util):
+    """Leg F (C01 only): the constructor also accepts non-integral lengths (`max_length=0.3/0.1` = 2.9999999999999996 is what a
+    caller gets who divides durations himself).  C01 quantifies over every accepted tuple and its formula mentions no parameter,
+    so these runs are judged by the same TLC monitor; the trace carries the ceilings as integer surrogates (TLC has no reals) and
+    ONLY the C01 verdict is read (C02-C04 are stated over the integer domain, observation O7)."""
+    out = []
+    nruns = 1500 if tier == "quick" else 20000
+    quot = [0.3 / 0.1, 0.7 / 0.1, 0.6 / 0.2, 0.15 / 0.05, 1.1 / 0.1, 0.9 / 0.3]
+    for k in range(nruns):
+        mx = rng.choice([rng.choice(quot), rng.randint(1, 8) + rng.choice([.5, .25, .75]), rng.randint(2, 8) - 1e-9, rng.randint(1, 8) + 1e-9])
+        mn = rng.choice([1, rng.randint(1, max(1, int(mx))), rng.uniform(0.1, mx), mx])
+        sl = rng.choice([0, rng.randint(0, max(0, math.ceil(mx) - 2)), rng.uniform(0, mx * .999)])
+        im = rng.choice([0, 0, 1, rng.uniform(0, mx * .999)])
+        isil = rng.choice([0, 1, 2, rng.uniform(0, 3)])
+        real = {"min": mn, "max": mx, "sil": sl, "imin": im, "isil": isil}
+        p = {k_: int(math.ceil(v)) for k_, v in real.items()}
+        p["strict"] = rng.random() < .5
+        p["drop"] = rng.random() < .5
+        s = rand_stream(rng, p, rng.choice([rng.randint(0, 12), rng.randint(0, 60), rng.randint(0, 60)]), "C01")
+        t = run_trace(core, util, p, s, rng.choice(["gen", "cb", "list"]), rng.choice(FTYPES), "callable", real=real)
+        t.pop("tk")
+        t["peer"] = tokens_of(t)
+        t["real"] = real
+        out.append(t)
+    return out
 
 
 def long_traces(prop, tier, rng, core, util):
@@ -740,6 +769,25 @@ def check(prop, tier, replay=None):
         elif i in accepted and not accepted[i]:
             V.divergence({"p": tr["p"], "stream": stream, "observed": observed(tr), "matched_events": row[2]})
     V.cov["traces_validated_against_impl"] += len(traces)
+    if prop == "C01":
+        t0 = time.time()
+        ftr = frac_traces(tier, rng, core_mod, util_mod)
+        frows, fst = judge("obs", ftr, wd, shards=8)
+        V.cov["states"] += fst
+        for tr, row in zip(ftr, frows):
+            fl = flags_of(row)
+            if fl & {"C01", "CRASH", "PARSE"}:
+                stream = [e["v"] for e in tr["ev"] if e["e"] == "R"]
+                V.violation({"p": tr["p"], "real": tr["real"], "stream": stream, "mode": tr["mode"]},
+                            f"tokenizer constructed with {tr['real']} mode={mode_of(tr['p'])} ({tr['mode']}) stream="
+                            f"{''.join('A' if v else 'a' for v in stream)}: observed tokens {observed(tr)} violate C01 "
+                            f"(monitors {sorted(fl & {'C01', 'CRASH', 'PARSE'})})",
+                            {"leg": "F", "trace": strip(tr), "real": tr["real"]})
+        V.cov["traces_validated_against_impl"] += len(ftr)
+        V.count(len(ftr), (canon([t["real"], t["p"]["strict"], t["p"]["drop"], [e.get("v") for e in t["ev"] if e["e"] == "R"], t["mode"]])
+                           for t in ftr if tokens_of(t)))
+        V.leg("F", traces=len(ftr), with_tokens=sum(1 for t in ftr if tokens_of(t)), events=sum(len(t["ev"]) for t in ftr),
+              wall_s=round(time.time() - t0, 2))
     if prop == "C08":
         # split() part of the statement: a region is yielded before more than the deciding window is pulled from the input,
         # end of stream is requested from the AudioSource exactly once (judged by TLC on SplitTrace, monitor C08S)
